@@ -18,6 +18,7 @@ import BV.Lemmas.MetaBlockFullAsm
 import BV.Lemmas.MetaBlockWmbiG
 import BV.Lemmas.MetaBlockAgree
 import BV.Lemmas.MetaBlockExpand
+import BV.Lemmas.MetaBlockFullEx
 import BV.Props.C01MetaBlock
 
 namespace BV.Props.C01MetaBlockFull
@@ -214,6 +215,43 @@ theorem wmbi_full_roundtrip (wo : WordOracle) (window : Nat) (ring : Bytes) (sta
     ⟨shouldCompress, att⟩ w ⟨hist, dc⟩ ⟨out, ring'⟩ hcat h1 h2 hw h256 ho
     (fun _ => by intro rest; rw [hrd rest, List.length_append])
   exact ⟨att, r, bits, s'', e, a1, a2, a3, a4, a5⟩
+
+/-! non-vacuity of `full_metablock_roundtrip` / `wmbi_full_roundtrip`: the command array of the second module's example
+(real encoder, quality 5: five literals and two copies through short distance codes) with a `MetaBlockSplit` of two
+literal block types, a literal context map of 128 entries over two clusters (type 1 uses cluster 1 for the contexts
+0..31, cluster 0 for the rest), one command block type, two distance block types without a distance context map.
+Every hypothesis holds (kernel-checked through the executable forms `coversB`, `faithfulB`, `histosB`).
+(The model writer on this instance emits 240 bits which the general reader decodes to the input: `#eval`-checked;
+as a kernel `decide` it costs 30 s — C17's tree construction over the 704-entry command histogram — and is left out.) -/
+def exHisto (n : Nat) (l : List (Nat × Nat)) : List Nat := l.foldl (fun h p => h.set p.1 p.2) (List.replicate n 0)
+
+def exSplit : MBSplit :=
+  { lit := ⟨2, 2, [0, 1], [2, 3]⟩, cmd := ⟨1, 1, [0], [2]⟩, dist := ⟨2, 2, [0, 1], [1, 1]⟩,
+    litCmap := List.replicate 64 0 ++ (List.replicate 32 1 ++ List.replicate 32 0), litCmapSize := 128,
+    distCmap := [], distCmapSize := 0,
+    litHistos := [exHisto 256 [(0x69, 2), (0x8e, 2)], exHisto 256 [(0x69, 1)]], litHistosSize := 2,
+    cmdHistos := [exHisto 704 [(232, 1), (132, 1)]], cmdHistosSize := 1,
+    distHistos := [exHisto 544 [(5, 1)], exHisto 544 [(3, 1)]], distHistosSize := 2 }
+
+open BV.Props.C01MetaBlock (exMb exRing exCmds noWords) in
+example : MBOK exSplit 64 ∧
+    (∀ c ∈ exCmds, cmdOK 64 0 0 c = true) ∧ (∀ c ∈ exCmds, copyLen c ≠ 0 → 2 ≤ copyLen c) ∧
+    lockstep noWords 0 0 1008 exMb ⟨[], [4, 11, 15, 16], 0⟩ 0 exCmds = true ∧
+    faithful noWords 0 0 1008 exMb [] ⟨[], [4, 11, 15, 16], 0⟩ exCmds ∧
+    Covers exSplit.litHistos (effMap exSplit.litCmap exSplit.litCmapSize exSplit.lit.numTypes 64) 64
+      (remTypes exSplit.lit 0 (exSplit.lit.lengths.getD 0 0)) (litSymsOf 0 [] exMb 0 exCmds) ∧
+    Covers exSplit.cmdHistos (trivialMap exSplit.cmd.numTypes 1) 1
+      (remTypes exSplit.cmd 0 (exSplit.cmd.lengths.getD 0 0)) (exCmds.map fun c => (0, c.cmdPrefix)) ∧
+    Covers exSplit.distHistos (effMap exSplit.distCmap exSplit.distCmapSize exSplit.dist.numTypes 4) 4
+      (remTypes exSplit.dist 0 (exSplit.dist.lengths.getD 0 0)) (distSymsOf exCmds) := by
+  refine ⟨⟨?_, ?_, ?_, histosOK_of_B _ _ _ _ (by decide +kernel), histosOK_of_B _ _ _ _ (by decide +kernel),
+    histosOK_of_B _ _ _ _ (by decide +kernel), rfl, fun h => by cases h, fun _ => ⟨rfl, rfl, by decide +kernel⟩,
+    fun _ => rfl, fun h => absurd rfl h⟩, by decide, by decide, by decide,
+    faithful_of_B _ _ _ _ _ _ _ _ (by decide +kernel), covers_of_B _ _ _ _ _ (by decide +kernel),
+    covers_of_B _ _ _ _ _ (by decide +kernel), covers_of_B _ _ _ _ _ (by decide +kernel)⟩
+  · exact ⟨rfl, rfl, by decide, by decide, rfl, by decide, by decide, by decide, by decide, by decide⟩
+  · exact ⟨rfl, rfl, by decide, by decide, rfl, by decide, by decide, by decide, by decide, by decide⟩
+  · exact ⟨rfl, rfl, by decide, by decide, rfl, by decide, by decide, by decide, by decide, by decide⟩
 
 /-! ### the general reader extends the single-type reader -/
 
